@@ -154,7 +154,11 @@ def run(chk):
             clause = {'BatchExtract': 'BatchCoversWorkingSet', 'CheckFailures': 'CheckFailuresExact',
                       'InitialSample': 'InitialSampleIsSpec'}.get(ev.get('ev'), 'LoopStepExplained')
             causes = set()
-            for e in rec['unmatched'] or list(rec['kept']):
+            at_step = []
+            if ev.get('ev') == 'BatchExtract' and rec.get('obj') is not None and hasattr(rec['obj'], 'all_examples'):
+                allstr = list(rec['obj'].all_examples.strings)
+                at_step = [allstr[int(i_[1:])] for i_ in ev.get('working', []) if i_ not in ev.get('matched', []) and int(i_[1:]) < len(allstr)]
+            for e in at_step or rec['unmatched'] or list(rec['kept']):
                 causes |= rr.char_causes(e, rec['kw'].get('dialect', 'portable'), list(rec['rex']) + list(ev.get('rextexts', [])))
             if clause == 'BatchCoversWorkingSet' and causes:
                 sig = {'kind': 'rex-unmatched', 'clause': 'Covered', 'cause': primary(causes), 'all_causes': '+'.join(sorted(causes))}
